@@ -177,6 +177,11 @@ func (c *SCIONClient) measureClockOffsetSCION(ctx context.Context, mtrcs *scionC
 			return time.Time{}, 0, err
 		}
 		remoteAddr.Host.IP = net.ParseIP(ntskeData.Server)
+		if remoteAddr.Host.IP == nil {
+			// the server named in the key exchange is not an IP address
+			c.Log.LogAttrs(ctx, slog.LevelInfo, "failed to parse NTP server address", slog.String("server", ntskeData.Server))
+			return time.Time{}, 0, errUnexpectedAddrType
+		}
 		remoteAddr.Host.Port = int(ntskeData.Port)
 		if remoteAddr.IA == localAddr.IA {
 			path = spath.Path{
